@@ -5,7 +5,7 @@
      amaranth/sim/pysim.py   _PyMemoryState.read / write / commit       (ms_read, ms_write, ms_commit)
      amaranth/sim/_pyrtl.py  _FragmentCompiler.__call__, MemoryInstance (run_domain: write ports queued
                              in port order, then sync read ports with the transparency patch; comb read
-                             ports; `if rst:` block in front of the memory part)
+                             ports; the `if rst:` block skips the read ports' data signals)
      amaranth/sim/_pyeval.py eval_value / _eval_assign_inner for MemoryData._Row   (tb_get, ETbSet)
      amaranth/hdl/_mem.py    _WritePort._granularity, MemoryData.Init
      amaranth/lib/memory.py  Memory.elaborate (port order, transparent_for -> write port indices),
@@ -141,28 +141,29 @@ Definition patch (a : Z) (v : Z) (t : action) : Z :=
 Definition transp_actions (wv : list (Z * action)) (tr : list nat) : list action :=
   flat_map (fun idx => match nth_error wv idx with Some t => [snd t] | None => [] end) tr.
 
-(* a sync read port of the running domain: `if rst: next = init` precedes the memory part, so a disabled
-   port is reset while an enabled one captures *)
-Definition sync_read (md : memd) (rows : list Z) (wv : list (Z * action)) (rst : bool)
+(* a sync read port of the running domain.  The `if rst:` block in front of the memory part skips the data
+   signals of the read ports (they have no reset), so the level of the domain's reset plays no role: an enabled
+   port captures, a disabled one keeps next = slots.next *)
+Definition sync_read (md : memd) (rows : list Z) (wv : list (Z * action))
                      (p : rport) (ri : rin) (cur : Z) : Z :=
-  let base := if rst then rp_init p else cur in
   if Z.odd (ri_en ri) then
     let a := mask (md_abits md) (ri_addr ri) in
     let v := ms_read (md_depth md) rows a in
     norm (md_shape md) (fold_left (patch a) (transp_actions wv (rp_transp p)) v)
-  else base.
+  else cur.
 
-(* process of domain d (reset level rst): queue the writes, update the read data registers;
+(* process of domain d (the reset level carried by the event does not reach the memory): queue the writes,
+   update the read data registers;
    wv = all_wvals md wi (write_addr / write_data / write_en of the current inputs) *)
 Definition run_domain (md : memd) (rows : list Z) (wv : list (Z * action)) (ri : nat -> rin)
                       (acc : wqueue * list Z) (dr : Z * bool) : wqueue * list Z :=
   let '(q, rdata) := acc in
-  let '(d, rst) := dr in
+  let d := fst dr in
   (queue_writes md rows q (dom_actions wv d),
    mapi (fun j p =>
            let cur := nth j rdata 0 in
            match rp_dom p with
-           | Some d' => if d' =? d then sync_read md rows wv rst p (ri j) cur else cur
+           | Some d' => if d' =? d then sync_read md rows wv p (ri j) cur else cur
            | None => cur
            end) (md_rports md)).
 
@@ -270,7 +271,6 @@ Definition spec_apply (s : shape) (acts : list sact) (a : Z) (old : Z) : Z :=
             acts old.
 
 Definition dom_active (doms : list (Z * bool)) (d : Z) : bool := existsb (fun dr => fst dr =? d) doms.
-Definition dom_rst (doms : list (Z * bool)) (d : Z) : bool := existsb (fun dr => (fst dr =? d) && snd dr) doms.
 
 (* the writes of all ports whose clock rises, in port order (no reference to the order of `doms`) *)
 Definition spec_writes (sa : list (Z * sact)) (doms : list (Z * bool)) : list sact :=
@@ -299,7 +299,7 @@ Definition spec_step (md : memd) (st : mstate) (ev : event) : mstate :=
                       if dom_active doms d then
                         if Z.odd (ri_en (ri j))
                         then spec_apply s (spec_transp sa (rp_transp p)) a (spec_read md arr a)
-                        else if dom_rst doms d then rp_init p else nth j (st_rdata st) 0
+                        else nth j (st_rdata st) 0                                (* disabled: holds, reset or not *)
                       else nth j (st_rdata st) 0
                   end) (md_rports md) in
       MSt arr' rd ri
